@@ -171,6 +171,18 @@ def gen_aliasclear(ctx: Ctx):
                     from ..astx import satisfiable, f_and
 
                     rebound = any(isinstance(x.node, ast.Assign) and any(isinstance(t, ast.Name) and t.id == name for t in x.node.targets) and gs.index < x.index < gc.index for x in lin.stmts)
+                    # a store in a branch that ends in raise/return never reaches a clear outside that branch
+                    dead_end = False
+                    for owner in ast.walk(fn):
+                        for fld in ("body", "orelse", "finalbody"):
+                            blk = getattr(owner, fld, None)
+                            if isinstance(blk, list) and any(x is st for x in blk) and isinstance(blk[-1], (ast.Raise, ast.Return)) and not any(y is c for x in blk for y in ast.walk(x)):
+                                dead_end = True
+                        for h in getattr(owner, "handlers", []) or []:
+                            if any(x is st for x in h.body) and isinstance(h.body[-1], (ast.Raise, ast.Return)) and not any(y is c for x in h.body for y in ast.walk(x)):
+                                dead_end = True
+                    if dead_end:
+                        continue
                     if gs.index < gc.index and not rebound and satisfiable(f_and(gs.guard, gc.guard)) and tuple(gc.loops[: len(gs.loops)]) == tuple(gs.loops)[: len(gc.loops)]:
                         ctx.fail(fi, st, f"`{src(st)[:70]}` ... `{src(c)}`",
                                  f"`{name}` is stored as it is (`{src(st)[:70]}`) and then emptied through its old name (`{src(c)}`): the container that received it holds the same object and "
@@ -731,3 +743,260 @@ def c12_19(ctx: Ctx):
     ctx.check(all(elin.under(g, dpar) for g, _ in typed), eb, typed[0][1], "emit_bytes gives a block a string type only when there are bytes",
               f"an empty `{dpar}` (`.ascii ''`) still gets its own typed block: the empty block carries a block_types entry and finalize() dies with a bare AssertionError in "
               "_remove_empty_blocks", key="emit_bytes::no-type-for-nothing")
+
+
+# ----------------------------------------------------------------------------
+# round 9: state that outlives its validity
+# ----------------------------------------------------------------------------
+
+_CONTAINER_CTORS = ("dict", "set", "list", "defaultdict", "OrderedDict", "Counter", "WeakKeyDictionary", "WeakValueDictionary", "WeakSet", "IdentitySet", "deque")
+_MUTATORS = ("add", "update", "setdefault", "append", "pop", "clear", "discard", "remove", "extend", "insert", "popitem", "appendleft")
+
+
+def _is_container_value(v: ast.AST) -> bool:
+    if isinstance(v, (ast.Dict, ast.Set, ast.List)):
+        return True
+    return isinstance(v, ast.Call) and src(v.func).split(".")[-1] in _CONTAINER_CTORS
+
+
+@rule("GEN.modulestate", ALL_PROPS, "no module-level container is written at run time (process-wide state outlives every module, context and rewrite)", 1, scoped=True)
+def gen_modulestate(ctx: Ctx):
+    n = 0
+    for mname, mod in sorted(ctx.repo.mods.items()):
+        tops: Dict[str, ast.stmt] = {}
+        for st in mod.tree.body:
+            tg = v = None
+            if isinstance(st, ast.Assign) and len(st.targets) == 1 and isinstance(st.targets[0], ast.Name):
+                tg, v = st.targets[0].id, st.value
+            elif isinstance(st, ast.AnnAssign) and isinstance(st.target, ast.Name) and st.value is not None:
+                tg, v = st.target.id, st.value
+            if tg and v is not None and _is_container_value(v):
+                tops[tg] = st
+        n += len(tops)
+        if not tops:
+            continue
+        for q, fi in sorted(ctx.repo.funcs.items()):
+            if fi.mod is not mod:
+                continue
+            local = {t.id for x in ast.walk(fi.node) if isinstance(x, ast.Assign) for t in x.targets if isinstance(t, ast.Name)} | {a.arg for a in fi.node.args.args + fi.node.args.kwonlyargs}
+            for x in ast.walk(fi.node):
+                name = None
+                if isinstance(x, ast.Call) and isinstance(x.func, ast.Attribute) and isinstance(x.func.value, ast.Name) and x.func.attr in _MUTATORS:
+                    name = x.func.value.id
+                elif isinstance(x, (ast.Assign, ast.AugAssign)):
+                    for t in (x.targets if isinstance(x, ast.Assign) else [x.target]):
+                        for s in ast.walk(t):
+                            if isinstance(s, ast.Subscript) and isinstance(s.ctx, ast.Store) and isinstance(s.value, ast.Name):
+                                name = s.value.id
+                if name in tops and name not in local:
+                    ctx.fail(fi, x if isinstance(x, ast.stmt) else fi.node, f"`{name}` (module level) is written in {q.split('.')[-1]}",
+                             f"`{src(x)[:70]}` changes the module-level `{name}`: what is remembered there survives the RewritingContext, the module and the rewrite it was computed for - a second "
+                             "rewrite of the same block object / of a module with the same UUID / of a module with another ABI in the same process is answered from the first one's state "
+                             "(stale EXIT offsets, label suffixes that continue across runs, escapes decoded with another byte order)", key=f"{q}::modulestate::{name}")
+                    break
+    ctx.ok(ctx.repo.mod("rewriting"), None, f"{n} module-level containers examined for run-time writes", nontrivial=False, key="GEN.modulestate::scan")
+    if n < 5 and "fixture" not in ctx.repo.mods:
+        raise AnalysisError(f"only {n} module-level containers found")
+
+
+_MEMO_REVIEWED: Dict[Tuple[str, str], str] = {}
+
+
+def _persistent(e: ast.AST, fn: ast.AST, module_names: Set[str]) -> bool:
+    """Does the container expression outlive the call (an attribute of self / of a parameter, or a module-level name)?"""
+    if isinstance(e, ast.Attribute):
+        return True
+    if isinstance(e, ast.Name):
+        bound = any(isinstance(x, ast.Assign) and any(isinstance(t, ast.Name) and t.id == e.id for t in x.targets) for x in ast.walk(fn))
+        return e.id in module_names and not bound
+    return False
+
+
+@rule("GEN.memo", ALL_PROPS, "no look-up-miss-then-fill memo in an attribute or module-level container (a remembered answer about the IR goes stale when the IR is edited)", 1, scoped=True)
+def gen_memo(ctx: Ctx):
+    n = 0
+    for q, fi in sorted(ctx.repo.funcs.items()):
+        fn = fi.node
+        module_names = {t.id for st in fi.mod.tree.body if isinstance(st, (ast.Assign, ast.AnnAssign)) for t in ([st.target] if isinstance(st, ast.AnnAssign) else st.targets) if isinstance(t, ast.Name)}
+        stores = []   # (container source, key source, stmt, value)
+        for st in walk_no_nested(fn):
+            if isinstance(st, ast.Assign):
+                for t in st.targets:
+                    if isinstance(t, ast.Subscript) and _persistent(t.value, fn, module_names):
+                        stores.append((src(t.value), src(t.slice), st, st.value))
+        if not stores and not any(isinstance(x, ast.If) for x in walk_no_nested(fn)):
+            continue
+        reads: Dict[Tuple[str, str], ast.AST] = {}
+        for x in ast.walk(fn):
+            # D.get(K)  |  K in D  |  K not in D
+            if isinstance(x, ast.Call) and isinstance(x.func, ast.Attribute) and x.func.attr == "get" and len(x.args) >= 1:
+                reads[(src(x.func.value), src(x.args[0]))] = x
+            if isinstance(x, ast.Compare) and len(x.ops) == 1 and isinstance(x.ops[0], (ast.In, ast.NotIn)):
+                reads[(src(x.comparators[0]), src(x.left))] = x
+        lin = linear(fn) if stores else None
+        for d, k, st, v in stores:
+            if (d, k) not in reads:
+                continue
+            # the store must sit on the miss path: inside `if K not in D:` / the else of `if K in D:` / `if v is None:` for a `v = D.get(K)`
+            try:
+                g = lin.of(st)
+            except AnalysisError:
+                continue
+            getters = {a.targets[0].id for a in walk_no_nested(fn) if isinstance(a, ast.Assign) and len(a.targets) == 1 and isinstance(a.targets[0], ast.Name)
+                       and isinstance(a.value, ast.Call) and isinstance(a.value.func, ast.Attribute) and a.value.func.attr == "get" and src(a.value.func.value) == d
+                       and len(a.value.args) == 1 and src(a.value.args[0]) == k}
+            on_miss = False
+            for cond in walk_no_nested(fn):
+                if not isinstance(cond, ast.If):
+                    continue
+                t = cond.test
+                in_body = any(x is st for b in cond.body for x in ast.walk(b))
+                in_else = any(x is st for b in cond.orelse for x in ast.walk(b))
+                if isinstance(t, ast.Compare) and len(t.ops) == 1 and src(t.left) == k and src(t.comparators[0]) == d:
+                    if (isinstance(t.ops[0], ast.NotIn) and in_body) or (isinstance(t.ops[0], ast.In) and in_else):
+                        on_miss = True
+                if in_body and isinstance(t, ast.Compare) and len(t.ops) == 1 and isinstance(t.ops[0], ast.Is) and isinstance(t.left, ast.Name) and t.left.id in getters \
+                        and isinstance(t.comparators[0], ast.Constant) and t.comparators[0].value is None:
+                    on_miss = True
+                if in_body and isinstance(t, ast.UnaryOp) and isinstance(t.op, ast.Not) and isinstance(t.operand, ast.Name) and t.operand.id in getters:
+                    on_miss = True
+            if not on_miss:
+                continue
+            # "refuse duplicates, then register" is not a memo: the hit path raises instead of answering
+            refuses = False
+            for r in lin.stmts:
+                if isinstance(r.node, ast.Raise):
+                    try:
+                        if lin.under(r, f"{k} in {d}"):
+                            refuses = True
+                    except Exception:
+                        pass
+            if refuses:
+                continue
+            # get-or-create of an owned record (`sections[name] = Section(...)`, `refs[b] = (RefNode(b), RefNode(b))`) is state, not a remembered answer:
+            # a memo's value comes out of function/method calls (queries), a record's out of constructors only
+            exprs = [v]
+            if isinstance(v, ast.Name):
+                exprs = [a.value for a in walk_no_nested(fn) if isinstance(a, ast.Assign) and any(isinstance(t, ast.Name) and t.id == v.id for t in a.targets) and a.value is not None
+                         and not (isinstance(a.value, ast.Call) and isinstance(a.value.func, ast.Attribute) and a.value.func.attr == "get" and src(a.value.func.value) == d)]
+                exprs += [c for c in calls_in(fn) if isinstance(c.func, ast.Attribute) and isinstance(c.func.value, ast.Name) and c.func.value.id == v.id and c.func.attr in _MUTATORS]
+
+            def ctor_like(c: ast.Call) -> bool:
+                last = src(c.func).split(".")[-1]
+                if isinstance(c.func, ast.Name) and c.func.id in {a.arg for a in fn.args.args + fn.args.kwonlyargs}:
+                    return True   # a factory handed in by the caller
+                return last[:1].isupper() or last in _CONTAINER_CTORS or last in ("int", "len", "tuple", "frozenset", "str", "bool", "cast", "isinstance") or last in _MUTATORS
+
+            queries = [c for e in exprs for c in ast.walk(e) if isinstance(c, ast.Call) and not ctor_like(c)]
+            if not queries:
+                continue
+            n += 1
+            if _is_container_value(v) and not (isinstance(v, ast.Call) and v.args):
+                continue   # "make sure the entry exists" (`if e not in self._data: self._data[e] = {}`), not a remembered answer
+            if (q, d) in _MEMO_REVIEWED:
+                continue
+            ctx.fail(fi, st, f"`{d}[{k}]` is filled on a miss and answered from afterwards",
+                     f"`{src(st)[:80]}` after a miss on `{d}`: the value computed now is handed out again on every later request for `{k}`, but nothing ties its lifetime to the state it was "
+                     "computed from - a function's return targets change when a patch adds a call to it in the same apply(), a module's function list changes with every rewrite, an assembly "
+                     "text embeds symbol names that can be renamed; the batch then differs from one-at-a-time application", key=f"{q}::memo::{d}")
+        # lazy attribute:  if self.A is None: self.A = <computed>
+        for st in walk_no_nested(fn):
+            if isinstance(st, ast.If) and isinstance(st.test, ast.Compare) and len(st.test.ops) == 1 and isinstance(st.test.ops[0], ast.Is) \
+                    and isinstance(st.test.comparators[0], ast.Constant) and st.test.comparators[0].value is None and isinstance(st.test.left, ast.Attribute):
+                a = src(st.test.left)
+                for b in st.body:
+                    if isinstance(b, ast.Assign) and any(src(t) == a for t in b.targets) and not _is_container_value(b.value) and any(isinstance(c, ast.Call) for c in ast.walk(b.value)):
+                        n += 1
+                        reads_self = any(isinstance(y, ast.Attribute) and src(y) != a and isinstance(y.value, ast.Name) and y.value.id == "self" for y in ast.walk(b.value))
+                        if not reads_self:
+                            continue   # GEN.stalecache judges lazily built values that depend on an argument
+                        ctx.fail(fi, b, f"`{a}` is computed once from other state of `self`",
+                                 f"`{src(b)[:80]}`: the answer is remembered until somebody resets `{a}`, but the state it is computed from can change without going through this class "
+                                 "(the per-element dictionaries an OffsetMapping hands out are live views: `m[elem][4] = x` changes the contents and leaves the cached length behind)",
+                                 key=f"{q}::lazyattr::{a}")
+    ctx.ok(ctx.repo.mod("rewriting"), None, f"{n} miss-then-fill / lazy-attribute sites examined", nontrivial=False, key="GEN.memo::scan")
+
+
+@rule("GEN.readindex", ALL_PROPS, "the result of a stream read is not indexed before its length was checked", 1, scoped=True)
+def gen_readindex(ctx: Ctx):
+    n = 0
+    for q, fi in sorted(ctx.repo.funcs.items()):
+        for x in ast.walk(fi.node):
+            if isinstance(x, ast.Call) and isinstance(x.func, ast.Attribute) and x.func.attr == "read":
+                n += 1
+            if isinstance(x, ast.Subscript) and isinstance(x.value, ast.Call) and isinstance(x.value.func, ast.Attribute) and x.value.func.attr == "read" and not isinstance(x.slice, ast.Slice):
+                ctx.fail(fi, fi.node, f"`{src(x)[:50]}`",
+                         f"`{src(x)[:60]}` indexes what `read()` returned: at the end of the stream that is an empty byte string and the index raises IndexError, which none of the callers "
+                         "converts - a `.cfi_escape` truncated inside this operand leaks IndexError instead of the documented ValueError/CFIStateError", key=f"{q}::readindex")
+    ctx.ok(ctx.repo.mod("rewriting"), None, f"{n} stream reads examined", nontrivial=False, key="GEN.readindex::scan")
+
+
+round7._FIXTURE += '''
+
+_SEEN = {}
+_PREPARED = set()
+
+def remember(block, offset):
+    _SEEN[block] = offset
+
+def prepare(module):
+    if module in _PREPARED:
+        return
+    _PREPARED.add(module)
+
+
+class Targets:
+    def __init__(self):
+        self.by_function = {}
+        self._len = None
+        self._data = {}
+
+    def targets(self, cache, uuid):
+        found = self.by_function.get(uuid)
+        if found is None:
+            found = compute(cache, uuid)
+            self.by_function[uuid] = found
+        return found
+
+    def __len__(self):
+        if self._len is None:
+            self._len = sum(len(v) for v in self._data.values())
+        return self._len
+
+
+def first_byte(io):
+    return io.read(1)[0]
+'''
+round7._FIXTURE_EXPECT["GEN.modulestate"] = "remember"
+round7._FIXTURE_EXPECT["GEN.memo"] = "Targets.targets"
+round7._FIXTURE_EXPECT["GEN.readindex"] = "first_byte"
+
+
+@rule("GEN.tablehandle", ALL_PROPS, "an aux-data table handle obtained with `.get(...)` (None while the table does not exist) is not kept in an attribute", 1, scoped=True)
+def gen_tablehandle(ctx: Ctx):
+    n = 0
+    for q, fi in sorted(ctx.repo.funcs.items()):
+        for st in walk_no_nested(fi.node):
+            if not (isinstance(st, (ast.Assign, ast.AnnAssign)) and getattr(st, "value", None) is not None):
+                continue
+            v = st.value
+            tgts = st.targets if isinstance(st, ast.Assign) else [st.target]
+            if isinstance(v, ast.Call) and isinstance(v.func, ast.Attribute) and v.func.attr in ("get", "get_or_insert") and src(v.func.value).startswith(("_auxdata.", "_auxdata_offsetmap.")):
+                n += 1
+                if v.func.attr == "get" and any(isinstance(t, ast.Attribute) for t in tgts):
+                    ctx.fail(fi, st, f"`{src(st)[:70]}`",
+                             f"`{src(st)[:80]}` keeps what `.get()` returned at this moment - None when the module has no such table yet. Tables are created on demand later in the same rewrite "
+                             "(`insert()` records a patch's `.align` requests with get_or_insert), so every later user of the attribute works on 'no table': entries of removed blocks stay behind "
+                             "and the table ends up mentioning blocks that are not in the module", key=f"{q}::tablehandle::{src(tgts[0])}")
+    ctx.ok(ctx.repo.mod("rewriting"), None, f"{n} aux-table look-ups examined", nontrivial=False, key="GEN.tablehandle::scan")
+    if n < 30 and "fixture" not in ctx.repo.mods:
+        raise AnalysisError(f"only {n} aux-table look-ups found")
+
+
+round7._FIXTURE += '''
+
+class Holder:
+    def __init__(self, module):
+        self.alignment = _auxdata.alignment.get(module)
+'''
+round7._FIXTURE_EXPECT["GEN.tablehandle"] = "Holder.__init__"
